@@ -248,7 +248,7 @@ pub fn check(s: &'static dyn Proto, c: &Case, st: &mut Stats, _k: &KnownFindings
 }
 
 pub const BUDGET: Budget = Budget {
-    quick: (80, 32, 12),
+    quick: (240, 90, 32),
     thorough: (800, 250, 80),
     shrink: 60,
 };
